@@ -1408,7 +1408,7 @@ def run_shard(shard, ctx):
                         if th or (mi + idx) % 3 == 0:
                             run_case(dict(base, desc=None, perm2='id', **mconf), ctx)
                     # a time descriptor other than 'time' selected by name
-                    if bins is None or idx % 4 == 0:
+                    if bins is None:
                         run_case(dict(base, desc='cond', perm2='id', tname='tms', method='euclidean', rm=False), ctx)
     elif kind == 'movieunb':
         nt = shard['nt']
@@ -1427,7 +1427,7 @@ def run_shard(shard, ctx):
                         run_case(dict(base, desc='cond', **mconf), ctx)
                         if th or (mi + idx) % 3 == 0:
                             run_case(dict(base, desc=None, **mconf), ctx)
-                        if th or (mi + idx) % 3 == 1:
+                        if bins is None and (th or (mi + idx) % 3 != 0):
                             run_case(dict(base, desc='cond', aslist=True, **mconf), ctx)
     elif kind == 'scale':
         n_ch = shard['P']
